@@ -53,6 +53,19 @@ structure WriteOp where
   content     : Nat      -- identity of what is written (≥ 1); 0 marks an empty / partial file
   deriving Repr
 
+/-- why a format writer raises after `write_dataset` has opened (created / truncated) the file -/
+inductive FailCause | none | reservedName | lineBreakName | inexactInt
+  deriving DecidableEq, Repr
+
+/-- `write_dataset_to_hdf5` refuses reserved attribute names; `write_dataset_to_text` also refuses a line break
+in an attribute name and integers that float64 cannot hold exactly -/
+def writerRaises (fmt : Fmt) (c : FailCause) : Bool :=
+  match c with
+  | .none => false
+  | .reservedName => true
+  | .lineBreakName => fmt = .text
+  | .inexactInt => fmt = .text
+
 abbrev Folder := List (Str × Nat)
 
 def Folder.get (fs : Folder) (p : Str) : Option Nat := (fs.find? (fun e => e.1 = p)).map (·.2)
@@ -197,5 +210,80 @@ def findLatest (st : DStore) (label : Str) (date : Option Str) : Except PyExc (O
   match date with
   | none => findIn st label (sortDesc (st.map (·.1)))
   | some d => findIn st label [d]
+
+
+/-! ### `DataStore.list_folders(label)` — ascending listing of every folder (of the label) -/
+
+/-- `l.sort()` (names in a listing are distinct) -/
+def sortAsc (l : List Str) : List Str := (sortDesc l).reverse
+
+/-- inner loop over the sorted entries of one date directory -/
+def listDate (label : Option Str) (dd : Str) (ch : List (Str × Bool)) : List Str → List (Str × Str × Str)
+  | [] => []
+  | ff :: rest =>
+    match matchFolderName ff with
+    | some (t, lab) =>
+      if (label = none ∨ label = some lab) ∧ ch.any (fun e => e.1 = ff && e.2) = true then
+        (dd, ff, t) :: listDate label dd ch rest
+      else listDate label dd ch rest
+    | none => listDate label dd ch rest
+
+/-- outer loop over the sorted entries of the base directory -/
+def listIn (st : DStore) (label : Option Str) : List Str → Except PyExc (List (Str × Str × Str))
+  | [] => .ok []
+  | dd :: rest =>
+    if matchDigitsN 8 dd then
+      match st.get dd with
+      | none => .error .fileNotFoundError
+      | some none => .error .notADirectoryError
+      | some (some ch) =>
+        match listIn st label rest with
+        | .error e => .error e
+        | .ok l => .ok (listDate label dd ch (sortAsc (ch.map (·.1))) ++ l)
+    else listIn st label rest
+
+/-- `DataStore.list_folders(label)` → (date code, folder name, time code), oldest first -/
+def listFolders (st : DStore) (label : Option Str) : Except PyExc (List (Str × Str × Str)) :=
+  listIn st label (sortAsc (st.map (·.1)))
+
+/-! ### two callers inside `make_folder` at the same time (threads or processes)
+
+`make_folder` is not atomic: (1) ensure the date directory (`isdir` test, `mkdir`, FileExistsError
+swallowed), (2) `os.path.exists(full_path)` test, (3) `os.mkdir(full_path)`.  Only the two `mkdir`
+system calls are atomic test-and-set operations (trusted base: the OS).  Each caller `i` has valid
+arguments that resolve to the date code `d i` and folder name `f i`. -/
+
+inductive MkPC
+  | ensure | check | mkdir | ok | failed
+  deriving DecidableEq, Repr
+
+structure Race where
+  st : DStore
+  pc : Bool → MkPC          -- the two callers are `false` and `true`
+
+/-- one step of caller `i` (`none`: the caller has finished) -/
+def raceStep (d f : Bool → Str) (r : Race) (i : Bool) : Option Race :=
+  let setPc (st : DStore) (p : MkPC) : Race := { st := st, pc := fun j => if j = i then p else r.pc j }
+  match r.pc i with
+  | .ensure =>
+    match r.st.get (d i) with
+    | none => some (setPc (r.st.put (d i) (some [])) .check)       -- mkdir of the date directory
+    | some _ => some (setPc r.st .check)                            -- exists already (or: mkdir -> FileExistsError, swallowed)
+  | .check =>
+    if r.st.hasFolder (d i) (f i) then some (setPc r.st .failed)    -- "already exists"
+    else some (setPc r.st .mkdir)
+  | .mkdir =>
+    match r.st.get (d i) with
+    | some (some ch) =>
+      if ch.any (fun e => e.1 = f i) then some (setPc r.st .failed) -- os.mkdir raises FileExistsError
+      else some (setPc (r.st.put (d i) (some (ch ++ [(f i, true)]))) .ok)
+    | _ => some (setPc r.st .failed)                                -- date path is a plain file / vanished
+  | .ok => none
+  | .failed => none
+
+/-- states reachable by any interleaving of the two callers' steps -/
+inductive RaceReach (d f : Bool → Str) (st0 : DStore) : Race → Prop
+  | init : RaceReach d f st0 { st := st0, pc := fun _ => .ensure }
+  | step {r r' : Race} (i : Bool) : RaceReach d f st0 r → raceStep d f r i = some r' → RaceReach d f st0 r'
 
 end QmiModel.C17
